@@ -425,7 +425,21 @@ _RULE_ADDENDA_R6 = {
     'C19': " Round 6: the harness LoginChecker records the (name, uuid) it is asked about: it must be the player's name and offline UUID.",
 }
 _RULE_ADDENDA_R7 = {
-    'C20': " Round 7 (own work): C20Sched - thread programs of push/pull/close, ONE operation released at a time by a generated schedule, whole-process quiescence awaited after each, every result compared step by step with the sequential FIFO-with-close model (parked consumers: exactly one is served per push, all are released by Close; bounded Push refuses iff full and nobody waits), nobody parked in Pull while the model holds an item or is closed, nobody parked in Push; TestC20SchedEnum: all schedules of 16 configurations (quick: first 1200 each). C20Fine - the same programs with a release at every sync.Mutex/RWMutex Lock (a goroutine woken by Signal/Broadcast stops before re-acquiring the lock): history linearizable (porcupine), no consumer parked while accepted > delivered or after Close, no Push/Close parked; TestC20FineEnum: all lock-granularity schedules of 16 configurations (quick: first 1500 each). C20FinePlayers - join/left/len/samples/check programs on a list of capacity 1..3 with more joiners than capacity under lock-granularity schedules: no observation and no final state exceeds the capacity.",
+    'C01': " Round 7: in a third of the encode cases the Encoder has a past (an Encode that failed part-way through another value): what the Encode under test adds to the stream is its own document; byte arrays are also decoded into named byte-slice types (type MethBytes []byte, []Nibble). Round 8: C01EncodeMixed - lists of interface type whose 1..5 elements share a tag but not a Go type (plain value, pointer to it, nbt.RawMessage) at the root, in a struct field, as a map value: an independent reader sees every element as what it is (a non-empty list of Byte/Int/Long and the typed array are accepted for each other).",
+    'C02': " Round 7: one Encoder, several values: per-call accounting (what each successful Encode adds is one document of its value), in half of the cases with a failed Encode of another value before the third.",
+    'C03': " Round 7: every (input, entry) pair is read through one of six reader TYPES chosen by the input (harness readers with/without ReadByte, *bytes.Reader, *bytes.Buffer, *bufio.Reader, *strings.Reader), bytes taken measured for each; TestC03Concurrent: 8 goroutines x 3000 (thorough 60000) independent Unmarshal calls into shared struct types with key spellings nobody has used before and strict prefixes mixed in (a crashed shard is a violation). Round 8: corrupted tag ids include ids that are valid in their low bits only (id|0x10, id|0x80, valid low nibble with a generated high nibble).",
+    'C05': " Round 7: C05Stream - 1..12 VarInt/VarLong values decoded one after another from ONE reader of each type (harness readers with planned fragments / idle reads / last byte with EOF, *bytes.Reader, *bytes.Buffer, *strings.Reader, a 16-byte *bufio.Reader over a fragmenting source): value, n and bytes taken after every value, sentinel left; then one value from a fresh reader (nothing leaks).",
+    'C06': " Round 7: noisePacket() before Marshal (frames packed into failing/short writers, frames cut while unpacking, a Marshal whose second field refuses). Round 8: the destination's previous content may be RELATED to what arrives (the arriving text/bytes a proper prefix of it or the other way round, last unit changed, array with one element replaced, extended or cut).",
+    'C07': " Round 7: noisePacket() before a third of the Pack calls and a quarter of the UnPack calls. Round 8: in a third of the cases the sender fills ONE scratch buffer with each payload in turn and packs a slice of it; a quarter of the frames repeat the id and length of the frame before with other content; lengths that make id+payload fill one or two 32 KiB inflate windows (+-1).",
+    'C08': " Round 7: command nodes are finished with HandleFunc, Unhandle() or an error-returning handler.",
+    'C09': " Round 7: payloads of 64 KiB..200000 bytes now and then; faults in long inputs also around every 4 KiB boundary. Round 8: every third write-fault offset is also injected through a writer that fails ONCE and works again (success is accepted only if the complete output is on the wire).",
+    'C10': " Round 7: C10Conn sends the same Packet values (same Data slices) in both directions and compares them with the originals at the end; payloads up to 9000 bytes.",
+    'C11': " Round 7: in the wire op the receiving storage may first decode 1..4 arrays of generated widths (ReadFrom + Fix each).",
+    'C13': " Round 8: one section in three receives 300 further distinct states after a network read and after ChunkFromSave (growth through every palette width to direct storage), then BlockCount and every position are compared.",
+    'C16': " Round 7: C16Frames writes through a connection whose writes fail ONCE at a generated offset (also exactly between two packets): the failed WritePacket reports an error; a later WritePacket either reports an error and writes nothing (a sticky error is allowed) or writes exactly its frame. Round 8: wrong passwords are also derived from the right one (repetition, cyclic extension, truncation, rotation, reversal, one bit, padding, swapped ends), in both roles.",
+    'C18': " Round 7: C18Name looks a name up, then 1..70000 other names, then the name again. Round 8: the upper-, lower- and swapped-case variants of every name are different names with their own UUIDs.",
+    'C19': " Round 7: resume mode - after HandleGame stopped with the failing handler's error it is called again (server hangs up after its last packet; delivered packets pairwise distinct, identified by content): the call log is the log up to the failure followed by the ordinary dispatch of everything after the failed packet's unit, the rest of the failed bundle either dropped or still dispatched. Round 8: one session in eight is a burst of 100..300 small packets each way.",
+    'C20': " Round 7 (own work): C20Sched - thread programs of push/pull/close, ONE operation released at a time by a generated schedule, whole-process quiescence awaited after each, every result compared step by step with the sequential FIFO-with-close model (parked consumers: exactly one is served per push, all are released by Close; bounded Push refuses iff full and nobody waits), nobody parked in Pull while the model holds an item or is closed, nobody parked in Push; TestC20SchedEnum: all schedules of 16 configurations (quick: first 1200 each). C20Fine - the same programs with a release at every sync.Mutex/RWMutex Lock (a goroutine woken by Signal/Broadcast stops before re-acquiring the lock): history linearizable (porcupine), no consumer parked while accepted > delivered or after Close, no Push/Close parked; TestC20FineEnum: all lock-granularity schedules of 16 configurations (quick: first 1500 each). C20FinePlayers - join/left/len/samples/check programs on a list of capacity 1..3 with more joiners than capacity under lock-granularity schedules: no observation and no final state exceeds the capacity. Round 8: C20Seq - one goroutine, push/pull runs of 1..600 items against the FIFO model on both queue kinds (backlogs of hundreds with items already pulled); player-list clients draw their profile UUIDs from 1..3 values in half of the cases; C20Pools sends ONE shared packet over 16..32 independent encrypted connections.",
 }
 for _pid, _txt in _RULE_ADDENDA_R3.items():
     PROPS[_pid]["rule"] = PROPS[_pid].get("rule", "") + _txt
@@ -437,3 +451,19 @@ for _pid, _txt in _RULE_ADDENDA_R6.items():
     PROPS[_pid]["rule"] = PROPS[_pid].get("rule", "") + _txt
 for _pid, _txt in _RULE_ADDENDA_R7.items():
     PROPS[_pid]["rule"] = PROPS[_pid].get("rule", "") + _txt
+
+# ---- technique fields: sub-checks added in rounds 7 and 8 (the deciding method stays generated-input search) ----
+_TECH_ADDENDA = {
+    "C01": "; encoders with a failed past; lists of interface type with mixed Go types (C01EncodeMixed)",
+    "C02": "; per-call accounting of several Encode calls on one Encoder with a failed Encode in between",
+    "C03": "; inputs delivered through standard-library reader types; concurrent independent decodes into shared struct types (process crash = violation)",
+    "C05": "; streams of several values through standard-library reader types (C05Stream)",
+    "C06": "; unrelated packet traffic that ends in faults before the operation; destination pre-states derived from the arriving value",
+    "C07": "; senders that reuse one scratch buffer; unrelated packet traffic that ends in faults between the operations",
+    "C09": "; faults injected also through writers that fail once and recover",
+    "C16": "; connections whose writes fail once at a generated offset; wrong passwords derived from the right one",
+    "C18": "; lookup histories (thousands of other names, case variants) around every offline-UUID query",
+    "C19": "; HandleGame re-entered after a handler error; bursts of hundreds of packets",
+}
+for _pid, _txt in _TECH_ADDENDA.items():
+    PROPS[_pid]["technique"] = PROPS[_pid]["technique"] + _txt
